@@ -3,6 +3,7 @@ import Marwood.Lemmas.CompileTail
 import Marwood.Lemmas.StackWFToy
 import Marwood.Lemmas.ConcreteLawsBpLive
 import Marwood.Lemmas.StackDiscOfWFS
+import Marwood.Lemmas.ProcInvMain
 /-!
 # C04 — calls in tail position run in constant stack space (instruction level)
 
@@ -633,6 +634,36 @@ theorem step_preserves_machine (ext : ExtOps) (el : Marwood.Lemmas.Sim.ExtLaws e
     Marwood.Lemmas.Good.GoodI s' ∧ ∃ K', WFS (concreteLawsV ext ecl) s' K' ∧ KStep (vops ext) s s' K K' :=
   ⟨(Marwood.Lemmas.Good.vmOk_step el eg ⟨g, .inl ⟨K, hw⟩⟩ hc sm hs sm').1,
     step_preserves hw (Marwood.Lemmas.Good.step_vops eg g hc hs sm')⟩
+
+/-! ### on the REAL machine, without `CalleeOkAlong`
+
+`Lemmas/ProcInvMain.lean`: the callee guard passes in every reachable state, because the two clauses `PInv` — every
+closure cell's lambda is procedure code, no value points to entry code — are an invariant of the real machine
+(`vmOkP_reaches`, `calleeOkAlong_of_vmOk`). -/
+
+open Marwood.Lemmas.Good Marwood.Lemmas.Sim in
+/-- **T04.5 on the real machine, closed**: hypotheses are the laws of the unmodelled parts, `GoodI`, WF-stack (value-typed
+    verifier) and `PInv` of the FIRST state, and the size bound. -/
+theorem tail_loop_sp_closed (ext : ExtOps) (force : Bool) (el : ExtLaws ext) (eg : ExtGood ext)
+    (ecl : ExtCodeLawsV ext) (ep : ExtProc ext) {D : FDesc} {R : List FDesc} {n : Nat} {s s' : St CHeap}
+    (hl : TailLoop (concreteOps ext) D.base n s s') (g : GoodI s)
+    (hw : WFS (concreteLawsV ext ecl) s (D :: R)) (p0 : PInv s) (hh : AtHead s D.base)
+    (sb : SizeBounded (machine ext force) s) :
+    ∃ arity, s'.stack.cellAt (s'.bp + 1) = .argc arity ∧ s'.stack.sp = D.base + arity + 3 :=
+  tail_loop_sp_machine ext force el eg ecl hl g hw hh sb
+    (calleeOkAlong_of_vmOk force el eg ep ⟨g, .inl ⟨_, hw⟩⟩ p0 sb)
+
+open Marwood.Lemmas.Good in
+/-- one instruction of the real machine preserves `GoodI`, WF-stack over the value-typed verifier and `PInv`; no
+    side condition on the callee -/
+theorem step_preserves_closed (ext : ExtOps) (el : Marwood.Lemmas.Sim.ExtLaws ext)
+    (eg : ExtGood ext) (ecl : ExtCodeLawsV ext) (ep : ExtProc ext)
+    {s s' : St CHeap} {K : List FDesc} (g : GoodI s) (hw : WFS (concreteLawsV ext ecl) s K) (p : PInv s)
+    (sm : Small s.heap) (hs : step (concreteOps ext) s = .ok (s', false)) (sm' : Small s'.heap) :
+    GoodI s' ∧ PInv s' ∧ ∃ K', WFS (concreteLawsV ext ecl) s' K' ∧ KStep (vops ext) s s' K K' := by
+  have hc : CalleeSite s → CalleeOk s := fun _ => calleeOk_of_pinv g p
+  have h := step_preserves_machine ext el eg ecl g hw hc sm hs sm'
+  exact ⟨h.1, (vmOkP_step el eg ep (ecl := ecl) ⟨⟨g, .inl ⟨K, hw⟩⟩, p⟩ sm hs sm').2, h.2⟩
 
 end Concrete
 
